@@ -641,8 +641,10 @@ impl<RW: QueueRW<T>, T> InnerRecv<RW, T> {
                 {
                     self.queue.manager.signal.set_reader(SeqCst);
                 }
-                self.queue.manager.remove_token(self.token);
             }
+            // Every handle owns a token, not only the last one of a stream: a token
+            // left behind is never updated again and stalls reclamation for good.
+            self.queue.manager.remove_token(self.token);
             fence(SeqCst);
             f()
         }
